@@ -14,9 +14,18 @@
                       per entry of epss), LStep l (one instruction of one request), LLose a (the
                       pooled connection to address a is lost, between two bursts: it is closed and
                       its closer — Lock; delete; Unlock — runs)
-   They hold for every sequence of events. *)
+   They hold for every sequence of events.
+
+   The C19_view_* theorems are about the session's VIEW of the directory (theories/SessionView.v):
+   vexec loop_prog (vinit d0) es : the directory starts with the services d0 and the session with
+                      that list; events: VChange d (a service becomes ready / is removed: the
+                      directory now holds d and has put one signal on the connection), VAnswer (the
+                      directory answers the loop's Services() call with what it holds then), VDeliver
+                      (the next reply / signal on the connection reaches the session), VLoop (one
+                      instruction of updateLoop: receive a signal, call Services(), store the list)
+   quiet s          : nothing on the connection, no delivered signal waiting, the loop back at its select *)
 From Coq Require Import List.
-From QV Require Import Session SessionProofs SessionLife SessionLifeProofs.
+From QV Require Import Session SessionProofs SessionLife SessionLifeProofs SessionView SessionViewProofs.
 Import ListNotations.
 
 (* the process does not crash *)
@@ -159,3 +168,27 @@ Theorem C19_life_witness :
             map t_res (st_thr s) = [Returned 0; Returned 1].
 Proof. exact wit_life_ok. Qed.
 Print Assumptions C19_life_witness.
+
+(* ---------- the session's view of the directory: bursts of registrations during refreshes ---------- *)
+
+(* once the directory is quiet and nothing is in flight, the session's list is exactly what the
+   directory holds — every registered service is found by Proxy / Object, with its current endpoint
+   and id — whatever the interleaving of changes, snapshots, deliveries and loop steps before *)
+Theorem C19_view_quiescent : forall d0 es s,
+  vexec loop_prog (vinit d0) es = Some s -> quiet s = true -> v_list s = v_dir s.
+Proof. exact view_quiescent. Qed.
+Print Assumptions C19_view_quiescent.
+
+(* a burst of three registrations, two of them after the snapshot of the refresh in progress and
+   delivered before its list is stored: the loop refreshes again and ends with all three *)
+Theorem C19_view_witness :
+  exists s, burst_end loop_prog = Some s /\ quiet s = true /\ v_list s = d3 /\ v_dir s = d3.
+Proof. exact wit_burst_settles. Qed.
+Print Assumptions C19_view_witness.
+
+(* the same burst with a loop that discards the delivered signals after storing its list: quiet,
+   and two registered services are missing from the session's list *)
+Theorem C19_view_refuted_drain_after_store :
+  exists s, burst_end (loop_prog ++ [UDrain]) = Some s /\ quiet s = true /\ v_dir s = d3 /\ v_list s = d1.
+Proof. exact drain_after_store_loses. Qed.
+Print Assumptions C19_view_refuted_drain_after_store.
